@@ -7,22 +7,24 @@
 // Sites = every byte of every committed tx-log record (embedded: the whole committed tx-log range incl. the
 // embedded values) and every byte of every referenced value-log range (flate: length prefix + compressed bytes).
 // Alteration operators per site: every single-bit flip, byte <- 00, byte <- FF, byte <- ^b (distinct results only);
-// thorough tier additionally every pair of bit flips whose bytes are less than 8 bytes apart in the same log.
+// thorough tier additionally every pair of bit flips whose bytes are less than 8 bytes apart in the same log and
+// not both inside opaque fields (digests, value bytes). Quick tier: plain-io1, embedded, flate-io1 completely,
+// plain-io2 for vLen / vOff / value-log bytes; index rebuilt. Thorough: all 5 configurations, rebuilt and persisted index.
 //
 // Each alteration is patched into a private copy of the store directory and the store is then read through
 //
-//	Open, ReadTx, ReadTxHeader, ReadTxEntry, ReadValue (entries of ReadTx and of ReadTxEntry), NewTxReader
-//	ascending and descending over the whole range, ExportTx, DualProof(i,j)+VerifyDualProof for all i<=j,
-//	WaitForIndexingUpto + Get / GetWithFilters(no filter) + Resolve of every key
+//	Open (multi-indexing mode: no indexer yet), ReadTx, ReadValue of every entry, ReadTxHeader, ReadTxEntry of every
+//	key, NewTxReader ascending and descending over the whole range, ExportTx, DualProof(i,j)+VerifyDualProof for all
+//	i<=j, then InitIndexing, WaitForIndexingUpto, Get / GetWithFilters(no filter) + Resolve of every key
 //
-// once with the index that was persisted before the alteration and once with the index directory removed
-// (index rebuilt from the altered log).
+// with the index directory removed (index rebuilt from the altered log by InitIndexing after the reads) and, thorough
+// tier, also with the index that was persisted before the alteration.
 //
 // Oracle (only what the property states): every observation is an error OR exactly the pristine observation
 // (ids, header fields incl. Alh, keys, metadata, value hashes, value lengths, values, exported bytes, proofs).
 // With a rebuilt index that stopped at tx k (tx k+1 unreadable) Get is compared with the pristine Get at k.
-// Never a panic (also not in a store goroutine: alterations that make a read panic are re-run in a child
-// process for the rebuild variant), never a hang (a sweep takes milliseconds; > 60 s three times in a row =
+// Never a panic (also not in a store goroutine: when a read panics, the index part runs in a child process: a
+// panicking indexer goroutine kills the process), never a hang (a sweep takes milliseconds; > 60 s three times in a row =
 // hang; a mutex left locked by a returning API call is detected directly and confirmed by 3 real 60 s waits).
 // NOT compared: the physical locator vOff, error texts, anything timing related.
 package main
@@ -46,7 +48,6 @@ import (
 	"reflect"
 	"runtime"
 	"runtime/debug"
-	"runtime/pprof"
 	"sort"
 	"strings"
 	"sync"
@@ -751,12 +752,22 @@ func (p *pristine) singles(si int) []alteration {
 	return out
 }
 
+// opaque: fields that the store only hashes or compares as a whole (digests, value bytes).
+func opaque(field string) bool {
+	switch field {
+	case "alh", "hVal", "hdr.BlRoot", "hdr.PrevAlh", "value", "cvalue":
+		return true
+	}
+	return false
+}
+
 // pairs: two bit flips, the first one in site si, the second one in the same byte (higher bit) or in a following
-// site of the same log less than 8 bytes away.
+// site of the same log less than 8 bytes away; pairs with both bytes in opaque fields are left out.
 func (p *pristine) pairs(si int) []alteration {
 	var out []alteration
 	s := p.sites[si]
-	for i := 0; i < 8; i++ {
+	op := opaque(p.regions[s.reg].Field)
+	for i := 0; i < 8 && !op; i++ {
 		for j := i + 1; j < 8; j++ {
 			out = append(out, alteration{{si, s.orig ^ (1 << i) ^ (1 << j), fmt.Sprintf("flip%d+%d", i, j)}})
 		}
@@ -765,6 +776,9 @@ func (p *pristine) pairs(si int) []alteration {
 		t := p.sites[sj]
 		if t.Log != s.Log || t.off()-s.off() >= 8 || t.off() < s.off() {
 			break
+		}
+		if op && opaque(p.regions[t.reg].Field) {
+			continue
 		}
 		for i := 0; i < 8; i++ {
 			for j := 0; j < 8; j++ {
@@ -985,8 +999,10 @@ func (p *pristine) compare(a alteration, want, got Obs, mode string, leaked []st
 				Detail: fmt.Sprintf("%s panicked after the alteration: %s", k, short(g[6:], 1200)), Replay: rp})
 			out.NeedChild, out.Detected = true, true
 		case g == "" || strings.HasPrefix(g, "err:"): // an error, or not reached because an earlier call failed: fine
-			if strings.HasPrefix(w, "ok:") && !out.Detected {
-				out.Detected, out.Example = true, k+" -> "+short(g, 200)
+			if strings.HasPrefix(w, "ok:") {
+				if out.Detected = true; g != "" && out.Example == "" {
+					out.Example = k + " -> " + short(g, 200)
+				}
 			}
 		case g != w:
 			changed = true
@@ -1346,22 +1362,13 @@ func main() {
 		}
 		os.Exit(0)
 	}
-	if pf := os.Getenv("C09_PROF"); pf != "" {
-		f, _ := os.Create(pf)
-		pprof.StartCPUProfile(f)
-		go func() { time.Sleep(30 * time.Second); pprof.StopCPUProfile(); f.Close(); os.Exit(0) }()
-	}
-	c = lib.New("C09", "exploration", 100*time.Second, 25*time.Minute)
+	c = lib.New("C09", "exploration", 140*time.Second, 25*time.Minute)
 	c.Assume("SHA-256 collision resistance; alterations restricted to the committed tx-log records and the referenced value-log ranges (commit log, hash tree and index files are not altered)")
 	c.Assume("physical value locators (vOff) and error texts are not compared; expirable entries expire in 2100")
 	if v := os.Getenv("C09_WORKERS"); v != "" {
 		fmt.Sscan(v, &c.Workers)
 	}
-	bsz := 16
-	if v := os.Getenv("C09_BALLAST"); v != "" {
-		fmt.Sscan(v, &bsz)
-	}
-	ballast = make([]byte, bsz<<20) // never touched: only raises the heap goal so that freed spans stay resident and are reused
+	ballast = make([]byte, 16<<20) // never touched: raises the heap goal a little (thousands of short-lived stores per second)
 	root := lib.Scratch("c09")
 	defer os.RemoveAll(root)
 
@@ -1384,8 +1391,9 @@ func main() {
 		c.Finish("replay of "+p.altString(r.Alt)+" index "+r.Index, false)
 	}
 
-	// quick: 4 configurations, single alterations, rebuilt index. thorough: 5 configurations, single alterations with
-	// rebuilt and with persisted index, then pairs of bit flips with rebuilt index.
+	// quick: single alterations, rebuilt index: plain-io1, embedded, flate-io1 completely, plain-io2 restricted to vLen, vOff
+	// and the value logs. thorough: 5 configurations completely: single alterations with rebuilt and with persisted index,
+	// then pairs of bit flips with rebuilt index.
 	type phase struct {
 		name, mode string
 		pairs      bool
@@ -1400,6 +1408,7 @@ func main() {
 			cfgs = append(cfgs, cfgByName(n))
 		}
 	}
+	var sampled sync.Map
 	var leakMu sync.Mutex
 	var leaks []lib.Violation
 	ps := map[string]*pristine{}
@@ -1421,12 +1430,12 @@ func main() {
 			for i := 0; i < c.Workers; i++ {
 				workers <- newWorker(p, filepath.Join(root, cf.Name, fmt.Sprintf("w%d-%s-%s", i, ph.name, ph.mode)))
 			}
-			nSites := len(p.sites)
-			if v := os.Getenv("C09_SITES"); v != "" {
-				fmt.Sscan(v, &nSites)
-			}
+			nSites, restricted := len(p.sites), !c.Thorough() && cf.IO == 2
 			var skipped atomic.Int64
 			c.ParallelFor(nSites, func(si int) {
+				if restricted && p.sites[si].Log == "tx" && !strings.HasPrefix(p.regions[p.sites[si].reg].Field, "v") {
+					return // quick tier, MaxIOConcurrency 2: only what selects and holds the values (vLen, vOff, value logs)
+				}
 				if c.Expired() {
 					skipped.Add(1)
 					return
@@ -1440,7 +1449,6 @@ func main() {
 				field := p.regions[p.sites[si].reg].Field
 				for _, a := range alts {
 					var out outcome
-					t0 := time.Now()
 					if p.heavy(a) {
 						out = w.runChild(a, ph.mode)
 						c.Add("alterations_run_in_child_process", 1)
@@ -1449,10 +1457,6 @@ func main() {
 						co := w.runChild(a, ph.mode)
 						out.Viol = append(out.Viol, co.Viol...)
 						c.Add("alterations_run_in_child_process", 1)
-					}
-					if os.Getenv("C09_TIMING") != "" {
-						c.Add("us_by_field_"+field, int64(time.Since(t0)/time.Microsecond))
-						c.Add("n_by_field_"+field, 1)
 					}
 					c.AddEvals(out.Evals)
 					for _, v := range out.Viol {
@@ -1471,8 +1475,8 @@ func main() {
 						c.Add("violating_by_field_"+field, 1)
 					case out.Detected:
 						c.Add("alterations_detected", 1)
-						if si%97 == 0 {
-							c.Sample(map[string]any{"detected": p.altString(a), "cfg": cf.Name, "field": field, "by": out.Example})
+						if _, dup := sampled.LoadOrStore(field, true); !dup && strings.Contains("hdr.Ts key kLen hVal alh value cvalue hdr.NEntries", field) {
+							c.Sample(map[string]any{"detected": p.altString(a), "cfg": cf.Name, "field": field, "first_error": out.Example})
 						}
 					default:
 						c.Add("alterations_tolerated_all_reads_equal_pristine", 1)
